@@ -209,6 +209,16 @@ impl DeclarationsGraph {
     }
 }
 
+/// Returns the type that an array specification depends on. That is either
+/// the array type that the specification is another name for or the type of
+/// the elements in the array.
+fn array_base_type(spec: &ArraySpecificationKind) -> &Type {
+    match spec {
+        ArraySpecificationKind::Type(parent) => parent,
+        ArraySpecificationKind::Subranges(subranges) => &subranges.type_name,
+    }
+}
+
 struct RuleGraphReferenceableElements {
     declarations: DeclarationsGraph,
     // Represents the context while visiting. Tracks the name of the current
@@ -274,10 +284,8 @@ impl Visitor<Diagnostic> for RuleGraphReferenceableElements {
     ) -> Result<Self::Value, Diagnostic> {
         let this = self.declarations.add_node(&node.type_name.name);
 
-        if let ArraySpecificationKind::Type(parent) = &node.spec {
-            let depends_on = self.declarations.add_node(&parent.name);
-            self.declarations.graph.add_edge(depends_on, this, ());
-        };
+        let depends_on = self.declarations.add_node(&array_base_type(&node.spec).name);
+        self.declarations.graph.add_edge(depends_on, this, ());
 
         node.recurse_visit(self)
     }
@@ -376,7 +384,15 @@ impl Visitor<Diagnostic> for RuleGraphReferenceableElements {
                     }
                     InitialValueAssignmentKind::Subrange(_) => {}
                     InitialValueAssignmentKind::Structure(_) => {}
-                    InitialValueAssignmentKind::Array(_) => {}
+                    InitialValueAssignmentKind::Array(array) => {
+                        // The elements of the array can be structures or function blocks
+                        // so the array is a reference to the type of the elements
+                        let this = self.declarations.add_node(from);
+                        let depends_on = self
+                            .declarations
+                            .add_node(&array_base_type(&array.spec).name);
+                        self.declarations.graph.add_edge(depends_on, this, ());
+                    }
                     InitialValueAssignmentKind::LateResolvedType(lrt) => {
                         // We nly care about these because these may be references to a function block
                         let from = self.declarations.add_node(from);
